@@ -50,7 +50,8 @@ pub struct QCall<'a, 'b, T> {
     pub q2: Option<ArrayViewD<'a, T>>,
     pub buf: Option<ArrayViewMutD<'b, T>>,
     /// storage kinds of the query arrays handed to a 2-D interpolator (rank-1 static and dynamic queries only):
-    /// 0 view/view, 1 view/owned, 2 owned/view, 3 view/shared, 4 shared/owned, 5 owned/owned
+    /// 0 view/view, 1 view/owned, 2 owned/view, 3 view/shared, 4 shared/owned, 5 owned/owned, 6 shared/shared
+    /// (1-D interpolators: 0 view, 5 owned, 6 shared)
     pub mix: u8,
 }
 
@@ -71,18 +72,49 @@ thread_local! {
     static IN_GUARD: std::cell::Cell<usize> = const { std::cell::Cell::new(0) };
 }
 
+/// calls into the crate under test that are in flight: thread -> (start, running number)
+static IN_FLIGHT: std::sync::Mutex<Vec<(std::thread::ThreadId, std::time::Instant, u64)>> = std::sync::Mutex::new(Vec::new());
+static CALL_NO: std::sync::atomic::AtomicU64 = std::sync::atomic::AtomicU64::new(0);
+
 /// marks the dynamic extent of a call into the crate under test
 pub struct GuardMark;
 impl GuardMark {
     pub fn new() -> Self {
         IN_GUARD.with(|g| g.set(g.get() + 1));
+        let n = CALL_NO.fetch_add(1, std::sync::atomic::Ordering::Relaxed);
+        if let Ok(mut v) = IN_FLIGHT.lock() {
+            v.push((std::thread::current().id(), std::time::Instant::now(), n));
+        }
         GuardMark
     }
 }
 impl Drop for GuardMark {
     fn drop(&mut self) {
         IN_GUARD.with(|g| g.set(g.get().saturating_sub(1)));
+        if let Ok(mut v) = IN_FLIGHT.lock() {
+            let me = std::thread::current().id();
+            if let Some(p) = v.iter().rposition(|e| e.0 == me) {
+                v.remove(p);
+            }
+        }
     }
+}
+
+/// Watchdog: a single call into the crate that runs longer than `limit` is a hang of the code under test.
+/// The process then writes `<out>.hang` (which call, since when) and exits with status 77, which bin/check
+/// reports as a violation (the scenario and seed reproduce it).
+pub fn start_watchdog(out: String, scenario: String, limit: std::time::Duration) {
+    std::thread::spawn(move || loop {
+        std::thread::sleep(std::time::Duration::from_millis(200));
+        let stuck = IN_FLIGHT.lock().ok().and_then(|v| v.iter().find(|e| e.1.elapsed() > limit).map(|e| (e.2, e.1.elapsed())));
+        if let Some((n, dt)) = stuck {
+            let _ = std::fs::write(
+                format!("{out}.hang"),
+                format!("scenario {scenario}: call number {n} into ndarray-interp has been running for {:.1} s (limit {:.0} s)\n", dt.as_secs_f64(), limit.as_secs_f64()),
+            );
+            std::process::exit(77);
+        }
+    });
 }
 
 pub fn install_quiet_panic_hook() {
@@ -219,6 +251,37 @@ macro_rules! array_entry_2d {
     }};
 }
 
+/// like array_entry_1d, with the query array owned (mix 5) or shared (mix 6) instead of a view
+macro_rules! array_entry_1d_mixed {
+    ($self:ident, $c:ident, $D:ty, $Dq:ty) => {{
+        type Out = <$Dq as DimAdd<<$D as Dimension>::Smaller>>::Output;
+        let q = match $c.q.into_dimensionality::<$Dq>() {
+            Ok(q) => q,
+            Err(_) => return na(),
+        };
+        macro_rules! go {
+            ($x:expr) => {
+                match $c.entry {
+                    Entry::Array => guarded(|| $self.interp_array($x).map_err(ierr), |a| Some(a.into_dyn())),
+                    Entry::ArrayInto => {
+                        let buf = match $c.buf.take().map(|b| b.into_dimensionality::<Out>()) {
+                            Some(Ok(b)) => b,
+                            _ => return na(),
+                        };
+                        guarded(|| $self.interp_array_into($x, buf).map_err(ierr), |_| None)
+                    }
+                    _ => unreachable!(),
+                }
+            };
+        }
+        match $c.mix {
+            5 => go!(&q.to_owned()),
+            6 => go!(&q.to_owned().into_shared()),
+            _ => go!(&q),
+        }
+    }};
+}
+
 /// like array_entry_2d, with the x / y query arrays in different storage kinds (C19: the casts of the fast path
 /// name the storage types of both query arrays)
 macro_rules! array_entry_2d_mixed {
@@ -253,6 +316,7 @@ macro_rules! array_entry_2d_mixed {
             3 => go!(&q, &q2.to_owned().into_shared()),
             4 => go!(&q.to_owned().into_shared(), &q2.to_owned()),
             5 => go!(&q.to_owned(), &q2.to_owned()),
+            6 => go!(&q.to_owned().into_shared(), &q2.to_owned().into_shared()),
             _ => go!(&q, &q2),
         }
     }};
@@ -298,11 +362,11 @@ macro_rules! impl_dyn1 {
                     }
                     Entry::Array | Entry::ArrayInto => match c.qtag {
                         "Ix0" => array_entry_1d!(self, c, $D, Ix0),
-                        "Ix1" => array_entry_1d!(self, c, $D, Ix1),
+                        "Ix1" => array_entry_1d_mixed!(self, c, $D, Ix1),
                         "Ix2" => array_entry_1d!(self, c, $D, Ix2),
                         "Ix3" => array_entry_1d!(self, c, $D, Ix3),
                         "Ix4" => array_entry_1d!(self, c, $D, Ix4),
-                        "IxDyn" => array_entry_1d!(self, c, $D, IxDyn),
+                        "IxDyn" => array_entry_1d_mixed!(self, c, $D, IxDyn),
                         _ => na(),
                     },
                 }
